@@ -221,6 +221,38 @@ fn main() {
             let r = engine::exec_on_thread(def, &case);
             println!("{:016x}", r.digest);
         }
+        "trace" => {
+            // debugging aid: run the ops of a replay file on a plain host and print every result and observation
+            let file = args.get(2).unwrap_or_else(|| usage());
+            let rf: model::ReplayFile = serde_json::from_slice(&std::fs::read(file).expect("read replay")).expect("parse replay");
+            let mut case = rf.case.clone();
+            case.program.reanalyze();
+            host::install_panic_hook();
+            let out = host::run_case_thread(case.hash_seed, case.story_seed, case.fuel, 60, 64, move || {
+                let mut lines = Vec::new();
+                let mut h = match host::Host::new(&case.program, &case.host) {
+                    Ok(h) => h,
+                    Err(r) => return vec![format!("construct: {}", r.brief())],
+                };
+                for (i, op) in case.ops.iter().enumerate() {
+                    let r = h.apply(op);
+                    lines.push(format!("op {i} {}: {}", op.short(), r.brief()));
+                    if r.is_panic() {
+                        break;
+                    }
+                    let o = h.observe();
+                    lines.push(format!("    can_continue={} path={} text={:?} choices={:?} errors={:?} warnings={:?} eval_stack={} flows={}", o.can_continue, o.path, o.text, o.choices, o.errors, o.warnings, o.eval_stack, o.flows));
+                }
+                for l in h.log_render() {
+                    lines.push(format!("  log {l}"));
+                }
+                lines
+            });
+            match out {
+                Ok(lines) => lines.iter().for_each(|l| println!("{l}")),
+                Err(_) => println!("case thread died or timed out"),
+            }
+        }
         "replay" => {
             let id = args.get(2).unwrap_or_else(|| usage());
             let def = props::find(id).unwrap_or_else(|| usage());
